@@ -54,6 +54,7 @@ type Descriptor struct {
 	OwnLockMethods []string `json:"own_lock_methods,omitempty"` // Lock/RLock/TryLock methods declared by the module itself
 	ClockReads     int      `json:"clock_reads"`                // time.Now / Since / Until / Sleep expressions redirected to the simulated clock
 	Timers         []string `json:"timers"`                     // time.After / AfterFunc / NewTimer / NewTicker / Tick: left on the real clock (their goroutines are foreign to the simulator)
+	PoolSites      int      `json:"pool_sites"`                 // x.Get() / x.Put(v) expressions behind the pool-miss fault
 	OnceWraps      int      `json:"once_wraps"`                 // x.Do(f) statements put behind a cooperative gate
 	WaitHints      int      `json:"wait_hints"`                 // runtime.Gosched() statements preceded by a "waiting" hint
 	Rewrite        bool     `json:"rewrite"`                    // lock rewriting was enabled for this copy
@@ -374,6 +375,12 @@ func RunOpts(srcDir, dstDir string, rewrite bool) (*Descriptor, error) {
 				ins = append(ins, insertion{off: tf.Offset(x.Pos()), text: fmt.Sprintf("func() { zzG := %s; for !zzSimhook.Enter(zzG) { zzSimhook.Blocked() }; defer zzSimhook.Leave(zzG); ", key)})
 				ins = append(ins, insertion{off: tf.Offset(x.End()), text: " }()"})
 				d.OnceWraps++
+			case sel.Sel.Name == "Put" && len(call.Args) == 1 && recv != "" && importsSync:
+				// sync.Pool may drop any item at any time: the simulator makes it do so now and then (x is probed at
+				// run time; for anything but a sync.Pool the statement runs unchanged)
+				ins = append(ins, insertion{off: tf.Offset(x.Pos()), text: fmt.Sprintf("if !zzSimhook.PoolDrop(&(%s)) { ", recv)})
+				ins = append(ins, insertion{off: tf.Offset(x.End()), text: " }"})
+				d.PoolSites++
 			case isGosched(call):
 				{
 					// a hand-written wait loop: tell the scheduler that this task is waiting for another one
@@ -418,6 +425,17 @@ func RunOpts(srcDir, dstDir string, rewrite bool) (*Descriptor, error) {
 				return false
 			case *ast.BlockStmt:
 				visitBlock(x.List, false)
+			case *ast.CallExpr:
+				if sel, ok := x.Fun.(*ast.SelectorExpr); ok && rewrite && importsSync && sel.Sel.Name == "Get" && len(x.Args) == 0 && simpleRecv(sel.X) {
+					recv := string(src[tf.Offset(sel.X.Pos()):tf.Offset(sel.X.End())])
+					if !strings.ContainsAny(recv, "\n\r") {
+						// x.Get() may find the pool empty at any time (another processor's cache, a collection): the
+						// simulator makes it so now and then
+						ins = append(ins, insertion{off: tf.Offset(x.Pos()), text: fmt.Sprintf("zzSimhook.PoolGet(&(%s), func() interface{} { return ", recv)})
+						ins = append(ins, insertion{off: tf.Offset(x.End()), text: " })"})
+						d.PoolSites++
+					}
+				}
 			case *ast.BinaryExpr:
 				if x.Op == token.MUL && timeName != "" {
 					// N * time.Unit: a duration the tree compares the clock with
@@ -556,6 +574,7 @@ func RunOpts(srcDir, dstDir string, rewrite bool) (*Descriptor, error) {
 		d.ClockScales = append(d.ClockScales, sc)
 	}
 	sort.Slice(d.ClockScales, func(i, j int) bool { return d.ClockScales[i] < d.ClockScales[j] })
+	fmt.Fprintf(&hb, "// PoolSites is the number of Get/Put expressions behind the pool-miss fault.\nconst PoolSites = %d\n\n", d.PoolSites)
 	fmt.Fprintf(&hb, "// ClockScales: the durations (nanoseconds) the module's source mentions; the simulated clock jumps by multiples of them.\nvar ClockScales = %#v\n\n", append([]int64{}, d.ClockScales...))
 	fmt.Fprintf(&hb, "// ClockSites is the number of clock expressions of the module redirected to the simulated clock.\nconst ClockSites = %d\n\n", d.ClockReads)
 	fmt.Fprintf(&hb, "// OpOnly is set when the module contains blocking synchronisation of its own.\nconst OpOnly = %v\n\n", d.OpOnly)
@@ -773,6 +792,36 @@ func Sleep(d time.Duration) {
 	if SleepFunc == nil || !SleepFunc(d) {
 		time.Sleep(d)
 	}
+}
+
+// PoolFault is installed by the harness: a seeded coin, true for "this Get finds the pool empty" / "this Put is
+// dropped" - both are things sync.Pool may do at any time (per-processor caches, collections).
+var PoolFault func() bool
+
+func poolOf(p interface{}) *sync.Pool {
+	switch v := p.(type) {
+	case *sync.Pool:
+		return v
+	case **sync.Pool:
+		return *v
+	}
+	return nil
+}
+
+// PoolGet stands in for x.Get() of the instrumented module.
+func PoolGet(p interface{}, real func() interface{}) interface{} {
+	if pp := poolOf(p); pp != nil && PoolFault != nil && PoolFault() {
+		if pp.New != nil {
+			return pp.New()
+		}
+		return nil
+	}
+	return real()
+}
+
+// PoolDrop reports whether the x.Put(v) statement it guards is to be skipped.
+func PoolDrop(p interface{}) bool {
+	return poolOf(p) != nil && PoolFault != nil && PoolFault()
 }
 
 // IsTask is installed by the harness: it reports whether the calling goroutine is the simulated task that holds
